@@ -14,6 +14,15 @@ from .c19 import clock_summaries, CLOCK_PREFIXES
 
 
 
+def _named_string(scope: ast.AST, a: ast.AST) -> ast.AST:
+    """A name that stands for one f-string (`part = f"..."`, assigned once) is that f-string."""
+    if isinstance(a, ast.Name):
+        d = [x for x in ast.walk(scope) if isinstance(x, ast.Assign) and len(x.targets) == 1 and isinstance(x.targets[0], ast.Name) and x.targets[0].id == a.id]
+        if len(d) == 1 and isinstance(d[0].value, ast.JoinedStr):
+            return d[0].value
+    return a
+
+
 def fused_part_sites(note_if: ast.If, result: str | None = None):
     """Statements that add one formatted part to the note token under construction: `token += f"..."` or `parts.append(f"...")` on a
     local list that is later joined.  -> [(statement node, JoinedStr)]"""
@@ -23,8 +32,8 @@ def fused_part_sites(note_if: ast.If, result: str | None = None):
         if isinstance(n, ast.AugAssign) and isinstance(n.value, ast.JoinedStr):
             out.append((n, n.value))
         elif isinstance(n, ast.Expr) and isinstance(n.value, ast.Call) and call_method(n.value)[1] == "append" and isinstance(call_method(n.value)[0], ast.Name) \
-                and call_method(n.value)[0].id in joined and n.value.args and isinstance(n.value.args[0], ast.JoinedStr):
-            out.append((n, n.value.args[0]))
+                and call_method(n.value)[0].id in joined and n.value.args and isinstance(_named_string(note_if, n.value.args[0]), ast.JoinedStr):
+            out.append((n, _named_string(note_if, n.value.args[0])))
     return out
 
 def block_of(n: ast.AST) -> list[ast.stmt]:
@@ -45,10 +54,20 @@ def stmt_of(n: ast.AST) -> ast.stmt:
 def emission_sites(fn: ast.FunctionDef):
     """prefix member -> [(append call, f-string or expr)] for every `tokens.append(...)` in tokenise (incl. closure)."""
     out = {}
-    res = T.result_list_name(fn)
+    sinks = T.output_lists(fn)
+    cands = []
     for c in ast.walk(fn):
-        if isinstance(c, ast.Call) and call_method(c)[1] == "append" and isinstance(call_method(c)[0], ast.Name) and call_method(c)[0].id == res and c.args:
-            a = c.args[0]
+        if isinstance(c, ast.Call) and call_method(c)[1] == "append" and isinstance(call_method(c)[0], ast.Name) and call_method(c)[0].id in sinks and c.args:
+            cands.append((c, c.args[0]))
+        # a list display moved into the result: `tokens.extend(batch + [note_token])`
+        if (isinstance(c, ast.Call) and call_method(c)[1] == "extend" and isinstance(call_method(c)[0], ast.Name) and call_method(c)[0].id in sinks and c.args) \
+                or (isinstance(c, ast.Assign) and len(c.targets) == 1 and isinstance(c.targets[0], ast.Name) and c.targets[0].id in sinks and isinstance(c.value, ast.BinOp)):
+            for x in ast.walk(c.args[0] if isinstance(c, ast.Call) else c.value):
+                if isinstance(x, ast.List):
+                    cands += [(c, el) for el in x.elts]
+    for c, a in cands:
+        if True:
+            a = _named_string(fn, a)
             m = None
             if isinstance(a, ast.JoinedStr):
                 for v in a.values:
@@ -503,6 +522,14 @@ def _check(ctx: Ctx) -> None:
     note_tokens = [c for c in ast.walk(note_if) if isinstance(c, ast.Call) and call_method(c)[1] == "append" and c.args
                    and isinstance(call_method(c)[0], ast.Name) and call_method(c)[0].id not in joined_
                    and (isinstance(c.args[0], ast.Name) or (isinstance(c.args[0], ast.Call) and call_method(c.args[0])[1] == "join"))]
+    # ... or the joined parts put into a list display that is moved into the result (`tokens.extend(batch + ["-".join(parts)])`)
+    for st_ in note_if.body:
+        if any(isinstance(x, ast.List) and any(isinstance(el, ast.Call) and call_method(el)[1] == "join" for el in x.elts) for x in ast.walk(st_)):
+            mover = [c for c in ast.walk(note_if) if isinstance(c, ast.Call) and call_method(c)[1] == "extend" and isinstance(call_method(c)[0], ast.Name)
+                     and call_method(c)[0].id in T.output_lists(fe.node) and not path_conditions(c, note_if)]
+            if mover and (isinstance(st_, ast.Assign) and isinstance(st_.targets[0], ast.Name) and st_.targets[0].id in T.output_lists(fe.node)
+                          or any(c in list(ast.walk(st_)) for c in mover)):
+                note_tokens.append(mover[0])
     ctx.check(any(not path_conditions(c, note_if) for c in note_tokens), "DISPATCH", "tokenise: every note appends its note token unconditionally", function=fe.qualname,
               construct="the note token of a note is not appended on every path of the note branch", message=f"{[short(c) for c in note_tokens]}",
               file=fe.file, node=note_if)
